@@ -39,6 +39,8 @@ def build(prog, dump, rank_mode="positions", rank_override=None):
             if len(v["vals"]) != 1:
                 return "u"
             t = envs.get(v["vals"][0])
+            if t is not None and t["kind"] == "var":      # a variable whose value is itself an object variable: follow it
+                return val({"k": "v", "vals": t.get("dom", [])})
             if t is not None and t["kind"] == "string":
                 return "(s %d)" % I("str:" + t["str"])
             return "(r %d)" % eid(v["vals"][0])
